@@ -125,6 +125,19 @@ func (rc *runCtx) build(flavour string) error {
 	default:
 		return fmt.Errorf("unknown flavour %s", flavour)
 	}
+	if alt := os.Getenv("VERIF_REPO"); alt != "" {
+		// build against another checkout of the repository (scratch worktrees with seeded changes)
+		gm, err := os.ReadFile(filepath.Join(verifRoot, "harness", "go.mod"))
+		if err != nil {
+			return err
+		}
+		gm = bytes.ReplaceAll(gm, []byte("=> /repo"), []byte("=> "+alt))
+		mf := filepath.Join(rc.work, "alt.go.mod")
+		os.WriteFile(mf, gm, 0o644)
+		gs, _ := os.ReadFile(filepath.Join(verifRoot, "harness", "go.sum"))
+		os.WriteFile(filepath.Join(rc.work, "alt.go.sum"), gs, 0o644)
+		args = append(args, "-modfile="+mf)
+	}
 	args = append(args, "-o", out, "./cmd/verif")
 	cmd := exec.Command("go1.26", args...)
 	cmd.Dir = filepath.Join(verifRoot, "harness")
@@ -492,7 +505,11 @@ func (rc *runCtx) conclude(spec propSpec, outs []*childOut, writeEvidence bool) 
 	var replayPaths []string
 	if len(fresh) > 0 {
 		code = 1
-		os.MkdirAll(filepath.Join(verifRoot, "replay"), 0o755)
+		replayDir := filepath.Join(verifRoot, "replay")
+		if os.Getenv("VERIF_REPO") != "" {
+			replayDir = filepath.Join(verifRoot, ".work", "replay-alt")
+		}
+		os.MkdirAll(replayDir, 0o755)
 		seenSig := map[string]bool{}
 		for _, v := range fresh {
 			k := sigKey(v.Sig)
@@ -503,7 +520,7 @@ func (rc *runCtx) conclude(spec propSpec, outs []*childOut, writeEvidence bool) 
 			if len(replayPaths) >= 10 {
 				break
 			}
-			p := filepath.Join(verifRoot, "replay", fmt.Sprintf("%s-%s-s%d-%d.json", rc.prop, rc.tier, rc.seed, len(replayPaths)))
+			p := filepath.Join(replayDir, fmt.Sprintf("%s-%s-s%d-%d.json", rc.prop, rc.tier, rc.seed, len(replayPaths)))
 			doc := map[string]any{"property": rc.prop, "tier": rc.tier, "seed": rc.seed, "violation": v,
 				"replay_cmd": fmt.Sprintf("./check %s --replay %s", rc.prop, p)}
 			b, _ := json.MarshalIndent(doc, "", " ")
@@ -574,7 +591,12 @@ func (rc *runCtx) conclude(spec propSpec, outs []*childOut, writeEvidence bool) 
 	}
 	b, _ := json.MarshalIndent(ev, "", " ")
 	os.MkdirAll(filepath.Join(verifRoot, "evidence"), 0o755)
-	if err := os.WriteFile(filepath.Join(verifRoot, "evidence", rc.prop+".json"), b, 0o644); err != nil {
+	evDir := filepath.Join(verifRoot, "evidence")
+	if os.Getenv("VERIF_REPO") != "" {
+		evDir = filepath.Join(verifRoot, ".work", "evidence-alt")
+	}
+	os.MkdirAll(evDir, 0o755)
+	if err := os.WriteFile(filepath.Join(evDir, rc.prop+".json"), b, 0o644); err != nil {
 		fmt.Println(err)
 		return 2
 	}
